@@ -60,6 +60,22 @@ fn reachable_det<C>(t: &ConstraintTree<C>, truth: &impl Fn(&C) -> bool) -> Vec<u
     res
 }
 
+/// The first-satisfied-child reading is NOT part of C10 as stated (the traversal follows every
+/// satisfied transition of a deterministic state, only the fallback transition is conditional): it is
+/// proved of the shipped trees (Properties/C10.v, Spec/TreeDet.v) and recorded here as information — a
+/// tree for which it fails has root children that are not mutually exclusive.
+fn det_note(o: &mut Out, failure: Option<String>) {
+    match failure {
+        None => o.count("first_satisfied_child_reading", "holds"),
+        Some(msg) => {
+            o.count("first_satisfied_child_reading", "fails");
+            if o.notes.iter().filter(|n| n.starts_with("first-satisfied-child reading fails")).count() < 3 {
+                o.notes.push(format!("first-satisfied-child reading fails (information, not a violation of C10): {}", msg));
+            }
+        }
+    }
+}
+
 /// labels valid; faithful under the given valuation; returns a description of the first defect
 fn faithful_under<C>(t: &ConstraintTree<C>, cs: &[C], truth: &impl Fn(&C) -> bool) -> Option<String> {
     faithful_with(t, cs, truth, reachable(t, truth), "reachable")
@@ -162,6 +178,9 @@ fn eval_string_tree(cs: Vec<StringConstraint<StringPatternPosition>>, o: &mut Ou
                     }
                 }
             };
+            if t.make_det {
+                det_note(o, det_faithful_under(&t, &cs, &truth).map(|msg| format!("string tree on host {:?} at {}: {} [{}]", h, a, msg, replay)));
+            }
             if let Some(msg) = faithful_under(&t, &cs, &truth) {
                 o.violation(format!("string tree unfaithful on host {:?} at {}: {}", h, a, msg), replay.clone());
                 return;
@@ -205,6 +224,9 @@ fn eval_matrix_tree(cs: Vec<Constraint<MatrixPatternPosition, CharacterPredicate
                         }
                     }
                 };
+                if t.make_det {
+                    det_note(o, det_faithful_under(&t, &cs, &truth).map(|msg| format!("matrix tree on host {:?} at ({},{}): {} [{}]", h, r0, c0, msg, replay)));
+                }
                 if let Some(msg) = faithful_under(&t, &cs, &truth) {
                     o.violation(format!("matrix tree unfaithful on host {:?} at ({},{}): {}", h, r0, c0, msg), replay.clone());
                     return;
@@ -320,6 +342,7 @@ fn all_assignments(n_keys: usize, n_vals: usize, f: &mut impl FnMut(&[usize]) ->
 
 fn check_pg_faithful(t: &ConstraintTree<PGConstraint>, cs: &[PGConstraint], pool: &[PGIndexKey], what: &str, replay: &str, o: &mut Out) {
     let mut bad: Option<String> = None;
+    let mut det_bad: Option<String> = None;
     let ne_root_det = t.make_det && t.children(0).count() >= 2 && t.children(0).all(|(_, c)| matches!(c.predicate(), PGPredicate::IsNotEqual { .. }));
     for bits in [0u64, u64::MAX, 0x5555_5555_5555_5555, 0x1234_5678_9abc_def0] {
         all_assignments(pool.len(), 3, &mut |val| {
@@ -333,8 +356,7 @@ fn check_pg_faithful(t: &ConstraintTree<PGConstraint>, cs: &[PGConstraint], pool
             // repeats the others, under every node assignment
             if ne_root_det {
                 if let Some(msg) = det_faithful_under(t, cs, &truth) {
-                    bad = Some(format!("{} (make_det set) under the node assignment {:?}: {}", what, val, msg));
-                    return false;
+                    det_bad = Some(format!("{} under the node assignment {:?}: {} [{}]", what, val, msg, replay));
                 }
             }
             true
@@ -347,7 +369,7 @@ fn check_pg_faithful(t: &ConstraintTree<PGConstraint>, cs: &[PGConstraint], pool
         o.violation(msg, replay.to_string());
     }
     if ne_root_det {
-        o.count("kind", "powerset tree, deterministic reading under every node assignment");
+        det_note(o, det_bad);
     }
 }
 
@@ -426,22 +448,21 @@ fn check_pg_det(t: &ConstraintTree<PGConstraint>, cs: &[PGConstraint], pool: &[P
             let in_tree = (0..t.n_nodes()).any(|n| t.constraint_indices(n).contains(&i));
             let reached = reach.iter().any(|&n| t.constraint_indices(n).contains(&i));
             if in_tree && reached != truth(&cs[i]) {
-                o.violation(
+                det_note(o, Some(
                     format!(
-                        "port-graph tree (make_det set) under the deterministic reading of its root, key k bound to node k, links {:?}: constraint {} is {} but a node labelled {} is {}",
+                        "port-graph tree, key k bound to node k, links {:?}: constraint {} is {} but a node labelled {} is {} [{}]",
                         links,
                         i,
                         if truth(&cs[i]) { "satisfied" } else { "not satisfied" },
                         i,
-                        if reached { "reached" } else { "not reached" }
-                    ),
-                    replay.to_string(),
-                );
+                        if reached { "reached" } else { "not reached" },
+                        replay
+                    )));
                 return;
             }
         }
     }
-    o.count("kind", "pg tree, deterministic reading on concrete hosts");
+    det_note(o, None);
 }
 
 fn eval_pg_tree(cs: Vec<PGConstraint>, pool: &[PGIndexKey], o: &mut Out) {
